@@ -151,7 +151,11 @@ def gen_cases(tier, seed, n_quick, n_thorough, profile=None, tag='ml'):
         if k % 3 == 0:
             # overloads of one free function that are NOT adjacent in the file (another declaration between them),
             # each with its own signature and defaults: they must still form one overload group / one .m file
-            used = {d[3] if d[0] == 'class' else d[2] for d in m if d and d[0] in ('class', 'fun', 'enum')}
+            used = set()
+            for d in m:
+                if d:
+                    used.add({'class': lambda: d[3], 'fun': lambda: d[2], 'enum': lambda: d[2], 'typedef': lambda: d[2],
+                              'var': lambda: d[2], 'fwd': lambda: d[2][2]}.get(d[0], lambda: None)())
             a = ('fun', None, g.fresh(used, G.METHOD_IDS), g.ret(), g.args())
             b = ('fun', None, g.fresh(used, G.METHOD_IDS), g.ret(), g.args())
             c = ('fun', None, a[2], g.ret(), g.args())
